@@ -641,12 +641,10 @@ static cfg_opt_t *cfg_addopt(cfg_t *cfg, char *key)
 	/* Write new opt to previous CFG_END() marker */
 	cfg->opts = opts;
 	cfg->opts[num].name = strdup(key);
-	cfg->opts[num].type = CFGT_STR;
+	if (!cfg->opts[num].name)
+		return NULL;	/* the (grown) array is still valid and still ends here */
 
-	if (!cfg->opts[num].name) {
-		free(opts);
-		return NULL;
-	}
+	cfg->opts[num].type = CFGT_STR;
 
 	/* Set new CFG_END() */
 	memset(&cfg->opts[num + 1], 0, sizeof(cfg_opt_t));
